@@ -2022,11 +2022,26 @@ fn refused_op(r: &mut Rng, sim: &mut Sim, h: &mut Vec<(Op, String)>, prefer: Opt
             // rename_glyph: invalid new name (most often: the call mutates in several steps), duplicate, missing
             0 | 1 | 2 | 3 if !gnames.is_empty() => Op::RenameGlyph(lname, r.pick(&gnames).clone(), bad, ow),
             4 if !gnames.is_empty() => Op::RenameGlyph(lname, r.pick(&gnames).clone(), r.pick(&gnames).clone(), false),
-            5 => Op::RenameGlyph(lname, "no.such".into(), if ow { bad } else { "fresh".into() }, r.chance(1, 2)),
+            // (the new name of a call refused for a missing old one may be bad, free, or an EXISTING one with overwrite)
+            5 => {
+                let n = match (r.below(3), gnames.is_empty()) {
+                    (0, _) => bad,
+                    (1, false) => r.pick(&gnames).clone(),
+                    _ => "fresh".to_string(),
+                };
+                Op::RenameGlyph(lname, "no.such".into(), n, ow)
+            }
             // rename_layer: invalid, duplicate, missing, reserved / onto the default layer
             6 | 7 => Op::RenameLayer(lname, bad, ow),
             8 => Op::RenameLayer(lname, other, false),
-            9 => Op::RenameLayer("no.such".into(), if ow { bad } else { "fresh".into() }, r.chance(1, 2)),
+            9 => {
+                let n = match r.below(3) {
+                    0 => bad,
+                    1 => other,
+                    _ => "fresh".to_string(),
+                };
+                Op::RenameLayer("no.such".into(), n, ow)
+            }
             10 if li > 0 => {
                 Op::RenameLayer(lname, if ow { "public.default".into() } else { sim.layers[0].0.clone() }, true)
             }
